@@ -9,7 +9,7 @@ Open Scope Z_scope.
 Lemma stored_deflated p : deflated inflate_stored p p.
 Proof.
   split; [reflexivity|]. intros n Hn. unfold inflate_stored.
-  destruct (Z.eqb_spec n 0); [lia|reflexivity].
+  destruct (Z.eqb_spec n 0); [lia|]. destruct (Z.leb_spec (2 ^ 63) n); [lia|reflexivity].
 Qed.
 
 Definition stored_gabi_blobs (choice : nat -> option gabi_args) (e : elf) : bool :=
